@@ -56,9 +56,9 @@
     }
     fn sym_len_mirror_len(pos_state: u32, len: u32) {
         let mut e = LengthEncoder::new(4, 273);
-        e.coder = vk::TAGGED_LEN_1000;
-        let mut d = vk::TAGGED_LEN_1000;
+        let mut d = LengthCoder::new();
         vk::ch_reset();
+        vk::ch_register(0, &e.coder, &d);
         let mut rce = RangeEncoder::new(vk::Sink::<4>::new());
         assert!(e.encode(len, pos_state, &mut rce).is_ok());
         let mut rcd = crate::range_dec::verif_kani::mk_decoder(vk::Src::<1>::new([0], 0), 0, 0);
@@ -81,3 +81,110 @@
     //@ERR
     //@BITCHAN
     fn c01_sym_len_ps15() { sym_len_mirror(15); }
+
+    fn mk_encoder_tagged(pb: usize, state: u8, reps: [i32; REPS]) -> core::mem::ManuallyDrop<LZMAEncoder> {
+        unsafe {
+            let mut m = core::mem::MaybeUninit::<LZMAEncoder>::zeroed();
+            let p = m.as_mut_ptr();
+            core::ptr::addr_of_mut!((*p).coder).write(vk::plain_coder(pb, state, reps));
+            let ml = LengthEncoder::new(4, 273);
+            let rl = LengthEncoder::new(4, 273);
+            core::ptr::addr_of_mut!((*p).match_len_encoder).write(ml);
+            core::ptr::addr_of_mut!((*p).rep_len_encoder).write(rl);
+            core::mem::ManuallyDrop::new(m.assume_init())
+        }
+    }
+
+    /// C01.sym.rep: encode_rep_match -> decode_rep_match over the bit channel, for every rep index, every length
+    /// (1 = short rep, only for rep 0), every state and every rep history: the decoder returns the length, both sides
+    /// end with the same rotated rep history (rep[0] = the chosen distance) and the same state, read/write the same
+    /// probability slots in the same order, channel drained.
+    fn sym_rep_mirror(pos_state: u32) {
+        let rep: u32 = vk::any();
+        let len: u32 = vk::any();
+        let state: u8 = vk::any();
+        let reps: [i32; REPS] = vk::any();
+        vk::assume(rep < 4 && len >= 1 && len <= 273 && (len != 1 || rep == 0) && (state as usize) < crate::state::STATES);
+        sym_rep_mirror_v(pos_state, rep, len, state, reps);
+        crate::vcover!(rep == 3 && len == 273);
+        crate::vcover!(len == 1);
+    }
+    #[kani::proof]
+    #[kani::unwind(18)]
+    //@ERR
+    //@BITCHAN
+    fn dbg_rep_a() { sym_rep_mirror_v(0, 0, 1, 0, [1, 2, 3, 4]); }
+    #[kani::proof]
+    #[kani::unwind(18)]
+    //@ERR
+    //@BITCHAN
+    fn dbg_rep_b() { sym_rep_mirror_v(0, 0, 5, 0, [1, 2, 3, 4]); }
+    #[kani::proof]
+    #[kani::unwind(18)]
+    //@ERR
+    //@BITCHAN
+    fn dbg_rep_c() { sym_rep_mirror_v(0, 2, 5, 7, [1, 2, 3, 4]); }
+    fn sym_rep_mirror_v(pos_state: u32, rep: u32, len: u32, state: u8, reps: [i32; REPS]) {
+        let mut e = mk_encoder_tagged(4, state, reps);
+        let mut d = core::mem::ManuallyDrop::new(crate::decoder::verif_kani::mk_decoder_tagged(4, state, reps));
+        vk::ch_reset();
+        { let (dc, dm, dr) = crate::decoder::verif_kani::dec_parts(&d); vk::ch_register(0, &e.coder, dc); vk::ch_register(1, &e.match_len_encoder.coder, dm); vk::ch_register(2, &e.rep_len_encoder.coder, dr); }
+        let mut rce = RangeEncoder::new(vk::Sink::<4>::new());
+        assert!(e.encode_rep_match(rep, len, pos_state, &mut rce).is_ok());
+        let mut rcd = crate::range_dec::verif_kani::mk_decoder(vk::Src::<1>::new([0], 0), 0, 0);
+        let got = crate::decoder::verif_kani::dec_rep_match(&mut d, pos_state, &mut rcd);
+        assert!(got == len);
+        assert!(vk::ch_drained());
+        let (dreps, dstate) = crate::decoder::verif_kani::dec_coder(&d);
+        assert!(e.coder.reps == *dreps && e.coder.state.get() == dstate);
+        assert!(e.coder.reps[0] == reps[rep as usize]);
+    }
+    #[kani::proof]
+    #[kani::unwind(18)]
+    //@ERR
+    //@BITCHAN
+    fn c01_sym_rep_ps0() { sym_rep_mirror(0); }
+    #[kani::proof]
+    #[kani::unwind(18)]
+    //@ERR
+    //@BITCHAN
+    fn c01_sym_rep_ps9() { sym_rep_mirror(9); }
+
+    /// C01.sym.match: encode_match -> decode_match over the bit channel for every distance of the class (including the
+    /// end marker 0xFFFFFFFF), every length 2..=273, every state and rep history: same length, rep[0] = distance on both
+    /// sides, history shifted, same state, same slots, channel drained.
+    fn sym_match_mirror(pos_state: u32, lo: u32, hi: u32) {
+        let dist: u32 = vk::any();
+        let len: u32 = vk::any();
+        let state: u8 = vk::any();
+        let reps: [i32; REPS] = vk::any();
+        vk::assume(dist >= lo && dist <= hi && len >= 2 && len <= 273 && (state as usize) < crate::state::STATES);
+        let mut e = mk_encoder_tagged(4, state, reps);
+        let mut d = core::mem::ManuallyDrop::new(crate::decoder::verif_kani::mk_decoder_tagged(4, state, reps));
+        vk::ch_reset();
+        { let (dc, dm, dr) = crate::decoder::verif_kani::dec_parts(&d); vk::ch_register(0, &e.coder, dc); vk::ch_register(1, &e.match_len_encoder.coder, dm); vk::ch_register(2, &e.rep_len_encoder.coder, dr); }
+        let mut rce = RangeEncoder::new(vk::Sink::<4>::new());
+        assert!(e.encode_match(dist, len, pos_state, &mut rce).is_ok());
+        let mut rcd = crate::range_dec::verif_kani::mk_decoder(vk::Src::<1>::new([0], 0), 0, 0);
+        let got = crate::decoder::verif_kani::dec_match(&mut d, pos_state, &mut rcd);
+        assert!(got == len);
+        assert!(vk::ch_drained());
+        let (dreps, dstate) = crate::decoder::verif_kani::dec_coder(&d);
+        assert!(e.coder.reps == *dreps && e.coder.state.get() == dstate);
+        assert!(dreps[0] as u32 == dist && dreps[1] == reps[0] && dreps[2] == reps[1] && dreps[3] == reps[2]);
+    }
+    #[kani::proof]
+    #[kani::unwind(34)]
+    //@ERR
+    //@BITCHAN
+    fn c01_sym_match_small() { sym_match_mirror(3, 0, 3); }
+    #[kani::proof]
+    #[kani::unwind(34)]
+    //@ERR
+    //@BITCHAN
+    fn c01_sym_match_mid() { sym_match_mirror(3, 4, 127); }
+    #[kani::proof]
+    #[kani::unwind(34)]
+    //@ERR
+    //@BITCHAN
+    fn c01_sym_match_large() { sym_match_mirror(3, 128, u32::MAX); }
